@@ -244,6 +244,43 @@ def stat_mode_obligations(ctx, rep, rule="R16h"):
                                            "gets no handler and disappears from listings" if problems else ""), key=f"{rule}|{st.qualname}")
 
 
+
+def member_path_obligations(ctx, rep, rule):
+    """The member a selector names is what follows the archive's own selector - once, at the front: VFSZip.getfspath() is
+    evaluated on selectors in which the archive's name recurs deeper in the path."""
+    from ..paths import Const, Walker
+
+    prog = ctx.prog
+    vz = ctx.cls("handlers.ZIP.VFSZip")
+    f = prog.resolve_method(vz, "getfspath") if vz else None
+    if f is None or len(f.params) < 2:
+        rep.fail(rule, "VFSZip.getfspath", detail="member path routine not found")
+        return
+    Z = "/docs/notes.zip"
+    cases = [(Z, ""), (Z + "/", ""), (Z + "/a.txt", "a.txt"), (Z + "/old/notes.zip", "old/notes.zip"), (Z + "/old/notes.zip.bak", "old/notes.zip.bak"),
+             (Z + "/docs/notes.zip/x", "docs/notes.zip/x"), (Z + "/dir/", "dir"), (Z + "/a b/c", "a b/c")]
+    problems, n = [], 0
+    for sel, want in cases:
+        facts = {"self.zipfilename": Const(Z)}
+        w = Walker(prog, ctx.resolver, exact_loops=True, unroll=4, max_paths=500, assumptions=dict(facts), sticky=set(facts),
+                   inline=lambda fn, t, d: d < 3 and (t.bound_cls is not None or fn.module is f.module))
+        outs = set()
+        try:
+            for p in w.run(f, vz, env={f.params[1]: Const(sel)}, facts=dict(facts)):
+                outs.add(p.value.value if p.kind == "return" and p.value is not None and p.value.kind == "const" else ("?" if p.kind != "raise" else "<" + str(p.value) + ">"))
+        except Exception:
+            outs = {"?"}
+        if len(outs) != 1 or "?" in outs:
+            continue
+        n += 1
+        got = next(iter(outs))
+        if got != want:
+            problems.append(f"in the archive {Z!r} the selector {sel!r} names the member {want!r}; getfspath() gives {got!r}")
+    rep.add(rule, f"{f.qualname}: member path = what follows the archive's selector [{n} of {len(cases)} evaluated]", not problems and n >= len(cases) // 2,
+            ctx.where(f), "; ".join(problems[:2]) if problems else ("" if n >= len(cases) // 2 else "the walker could not follow the routine"),
+            key=f"{rule}|getfspath", nontrivial=n > 0)
+
+
 def check(ctx, rep):
     prog = ctx.prog
     eff = Effects(prog, ctx.resolver)
@@ -259,6 +296,9 @@ def check(ctx, rep):
     rep.rule("R16k", "every description of an item from the file system is given the VFS the handler works on (no fall-back to the real file system)", floor=3)
     rep.rule("R16l", "member data and metadata are read under the name the index gives, never under the request path (links are resolved and names "
              "transcoded in the index)", floor=2)
+    rep.rule("R16n", "the member path of a selector is what follows the archive's own selector, taken off once at the front (evaluated on "
+             "selectors in which the archive's name recurs)", floor=1)
+    member_path_obligations(ctx, rep, "R16n")
     rep.rule("R16m", "= R14a for the archive view: VFSZip and the ZIP handler keep nothing between requests in module- or class-level tables "
              "(look-up results are valid only for the index they were taken from; the index cache file carries its own validity test)", floor=1)
     from ..effects import Effects as _Eff16
